@@ -35,6 +35,10 @@ class Horizon(Exception):
     """Too many scheduling points: livelock guard."""
 
 
+class KilledByDefaultAction(BaseException):
+    """A terminating signal reached the process while no handler was installed: the process dies on the spot."""
+
+
 class PipeStall(Exception):
     """A task blocked writing to its stdout/stderr because Conductor stopped reading the pipe."""
 
@@ -206,8 +210,13 @@ class VK:
                     for chunk in chunks:
                         _write_all(fd, chunk)
                 finally:
-                    os.close(fd)
-                    setattr(proc, attr, None)
+                    if attr == "out_fd" and b.get("linger") is not None:
+                        # a background grandchild inherited stdout and outlives the shell: the pipe stays open until
+                        # release_lingering() (the grandchild's exit)
+                        pass
+                    else:
+                        os.close(fd)
+                        setattr(proc, attr, None)
             out = proc.env.get("COND_OUT") if proc.env else None
             if out and os.WIFEXITED(proc.status) and os.WEXITSTATUS(proc.status) == 0 and os.path.isdir(out):
                 if not b.get("quiet"):
@@ -305,10 +314,21 @@ class VK:
             if self.abort_on is not None and any(p.key == self.abort_on for p in runners) and not (self.pending and not lost):
                 # SIGINT arrives while Conductor is blocked waiting for this task: the Python-level handler raises
                 # ConductorAbort out of the interrupted read()
+                b = self.behaviours[self.abort_on]
                 self.abort_on = None
-                self.ev("sigint", kind)
-                from conductor.errors import ConductorAbort
-                raise ConductorAbort()
+                signame = b.get("abort_signal", "SIGINT")
+                signum = getattr(_real_signal, signame)
+                self.ev("sigint", kind, signame, sorted((p.pid, p.key) for p in runners if not p.unrelated),
+                        sorted(p.key for p in self.procs.values() if p.state != "run" and p.status == 0))
+                # what happens next is decided by the disposition the process has for that signal at this moment
+                h = _real_signal.getsignal(signum)
+                if h == _real_signal.SIG_IGN:
+                    self.ev("signal-ignored", signame)
+                elif h == _real_signal.SIG_DFL or h is None:
+                    self._fail(KilledByDefaultAction("%s arrived while its disposition was the default action" % signame))
+                else:
+                    h(signum, None)     # Conductor's handler raises ConductorAbort out of the interrupted read()
+                continue
             if not opts:
                 self.ev("deadlock", kind)
                 why = "a SIGCHLD taken just before the call was entered is never handled" if (self.pending and lost) else "nothing pending"
@@ -427,6 +447,21 @@ class VK:
         finally:
             self._post()
 
+    def kill(self, pid, sig):
+        """kill(2) with a positive pid: that ONE process, not its group."""
+        if pid <= 0:
+            return self.killpg(-pid if pid < 0 else 0, sig)
+        self._pre("kill")
+        try:
+            p = self.procs.get(pid)
+            self.ev("kill", pid, sig, p.key if p is not None else None)
+            if p is None or p.state == "reaped":
+                raise ProcessLookupError(errno.ESRCH, "No such process")
+            if sig in (_real_signal.SIGTERM, _real_signal.SIGKILL) and p.state == "run" and not (p.behaviour or {}).get("ignores_sigterm"):
+                self._do_exit(p, st_signal(sig), why="killed")
+        finally:
+            self._post()
+
     def pipe(self):
         r, w = os.pipe()
         self.pipe_r, self.pipe_w = r, w
@@ -485,6 +520,20 @@ class VK:
         self.handler = handler
         self.ev("sigaction", "handler" if callable(handler) else str(handler))
         return old
+
+    def release_lingering(self):
+        """The background grandchildren that kept a task's stdout open write their last bytes and exit."""
+        n = 0
+        for p in self.procs.values():
+            b = p.behaviour or {}
+            if b.get("linger") is not None and p.out_fd is not None and p.state != "run":
+                fd, p.out_fd = p.out_fd, None
+                try:
+                    _write_all(fd, b["linger"])
+                finally:
+                    os.close(fd)
+                n += 1
+        return n
 
     # ------------------------------------------------------------------ teardown
     def teardown(self):
@@ -574,6 +623,7 @@ def make_os_facade():
         "waitpid": lambda pid, options: _cur().waitpid(pid, options, who="handler"),
         "getpgid": lambda pid: _cur().getpgid(pid),
         "killpg": lambda pgid, sig: _cur().killpg(pgid, sig),
+        "kill": lambda pid, sig: _cur().kill(pid, sig),
         "pipe": lambda: _cur().pipe(),
         "read": lambda fd, n: _cur().read(fd, n),
         "write": lambda fd, data: _cur().write(fd, data),
